@@ -22,6 +22,8 @@ NPROC = min(16, os.cpu_count() or 4)
 os.environ['PYTHONHASHSEED'] = os.environ.get('PYTHONHASHSEED', '0')
 os.environ['PIP_NO_INDEX'] = '1'
 sys.path.insert(0, os.path.join(REPO, 'python'))
+import logging  # noqa: E402
+logging.disable(logging.CRITICAL)    # pydiffx logs swallowed hunk-parser errors
 
 
 def seed():
